@@ -21,12 +21,21 @@ func c16(r *core.Run) {
 	r.Rule("C16/R1", "registration: account->module debit and module->POL credit carry the same value, which depends on msg.Years and the TLD cost table; recipient is the constant POL account; bank errors propagate")
 	r.Rule("C16/R2", "every reaching definition of the stored Names.Expires is years*const plus a base: Ctx.BlockHeight, or Store(Names).Expires only on paths that passed a live comparison for that record")
 	r.Rule("C16/R4", "success implies the effect: every committing return of a registration has debited the registrant and written the name record")
+	r.Rule("C16/R5", "the name record loaded for the liveness/ownership decision and the name record written are keyed by the same terms (same normalisation of the requested name on both sides)")
 	r.Rule("C16/R3", "a found name owned by another account is overwritten only behind an expired comparison (same guard row as C08/R1 for registration)")
 	hs, err := p.Handlers()
 	if err != nil {
 		r.Undecided("C16/R1", "handlers", "", err.Error())
 		return
 	}
+	// R5 the record whose liveness/ownership is tested is the record written
+	var regs []*core.Handler
+	for _, key := range []string{"rns.MsgRegister", "rns.MsgRegisterName"} {
+		if h := core.HandlerByKey(hs, key); h != nil {
+			regs = append(regs, h)
+		}
+	}
+	r.Floor("C16/R5", loadWriteKeyAgreement(r, "C16/R5", regs, nil), 2, "load/write pairs in the registration unit")
 	n := 0
 	for _, key := range []string{"rns.MsgRegister", "rns.MsgRegisterName"} {
 		h := core.HandlerByKey(hs, key)
